@@ -11,9 +11,10 @@
    throws; the history ends there and nothing more is claimed), `.error (.bad _)` (ill-formed history).
 
    What is proved at full strength over ALL histories is stated for the classes whose method contracts are
-   proved (`coverage`): the theta / tuple hash table.  The KLL and FI programs are modelled and tied to the code
-   by the per-operation correspondence check; their contracts are not all proved yet, which is why the theorems
-   carry the suffix `_partial` and the hypothesis `Covered ops` (no `new kll` / `new fi` in the history). -/
+   proved (`coverage`): the theta / tuple hash table and the frequent-items reverse purge hash map (+ sketch).
+   The KLL programs are modelled and tied to the code by the per-operation correspondence check; their contracts are
+   not all proved yet, which is why the theorems carry the suffix `_partial` and the hypothesis `Covered ops`
+   (no `new kll` in the history; objects of the covered classes may be mixed freely in one heap). -/
 import DSProofs.Lemmas.LifeSpecAll
 import DSGen.Life
 namespace DS.Life
@@ -33,23 +34,27 @@ def genCfg (hashOf strideOf : Nat → Nat) (comb : Nat → Nat → Nat) : Cfg :=
 
 /-- the side conditions on the tunables hold for the values in the current headers (re-checked on every run
     against the regenerated DSGen/Life.lean) -/
-theorem life_generated_tunables_ok (hashOf strideOf : Nat → Nat) (comb : Nat → Nat → Nat) :
-    (genCfg hashOf strideOf comb).OK := by
-  unfold Cfg.OK Theta.Params.OK genCfg
-  simp only
-  decide
+theorem life_generated_tunables_ok (hashOf strideRaw : Nat → Nat) (comb : Nat → Nat → Nat) :
+    (genCfg hashOf (fun lg => strideRaw lg ||| 1) comb).OK := by
+  refine ⟨?_, ?_, fun lg => Fi.or_one_odd _⟩
+  · unfold Theta.Params.OK genCfg
+    simp only
+    decide
+  · unfold Fi.Params.OK genCfg
+    simp only
+    decide
 
 /-- histories that construct only objects of the classes whose contracts are proved -/
 def Covered (ops : List Op) : Prop := ∀ op, op ∈ ops → Allowed coverage op
 
-/-- full statement (all three classes): not yet proved for histories that construct KLL / FI objects -/
+/-- full statement (all three classes): not yet proved for histories that construct KLL objects -/
 def life_no_precondition_failure_full : Prop :=
   ∀ (C : Cfg), C.OK → ∀ (ops : List Op) (msg : String), run C World.init ops ≠ .error (.pre msg)
 
 /-- NO PRECONDITION FAILURE: in every lifecycle history over any number of live objects no primitive is ever applied
     outside its precondition (no double destroy, no construct over a live object, no read of a moved-from / raw slot,
     no release with a wrong size or with live objects inside, no use of a released or foreign block).
-    Partial: histories that construct only theta / tuple tables. -/
+    Partial: histories that construct theta / tuple tables and frequent-items sketches (any mix), not KLL sketches. -/
 theorem life_no_precondition_failure_partial (C : Cfg) (hC : C.OK) (ops : List Op) (hcov : Covered ops) (msg : String) :
     run C World.init ops ≠ .error (.pre msg) := by
   have := run_safe (contracts C hC) ops (WorldInv.init (spec C)) hcov
@@ -57,11 +62,13 @@ theorem life_no_precondition_failure_partial (C : Cfg) (hC : C.OK) (ops : List O
   rw [e] at this
   exact this
 
-example : Covered [.newTable 0 5 0 (2 ^ 63 - 1), .update 0 11 1 [], .copy 0 1, .move 0 2, .copyAssign 0 1,
-    .moveAssign 1 2, .trim 1, .reset 0, .serialize 1, .destroy 2, .destroy 0, .destroy 1] := by
+example : Covered [.newTable 0 5 0 (2 ^ 63 - 1), .newFi 3 4 3, .update 0 11 1 [], .update 3 7 2 [], .copy 0 1, .move 0 2,
+    .copyAssign 0 1, .moveAssign 1 2, .copy 3 4, .merge 3 4 true [], .trim 1, .reset 0, .serialize 1, .roundTrip 3 5,
+    .destroy 2, .destroy 0, .destroy 1, .destroy 3, .destroy 4, .destroy 5] := by
   intro op hop
   simp only [List.mem_cons, List.not_mem_nil, or_false] at hop
-  rcases hop with rfl | rfl | rfl | rfl | rfl | rfl | rfl | rfl | rfl | rfl | rfl | rfl <;> trivial
+  rcases hop with rfl | rfl | rfl | rfl | rfl | rfl | rfl | rfl | rfl | rfl | rfl | rfl | rfl | rfl | rfl | rfl | rfl | rfl | rfl | rfl <;>
+    trivial
 
 /-- SLOTS = COUNTERS: after every operation of every history, for every live table object the set of non-raw slots of its
     block is exactly the set of slots with a non-zero key, the block has `2^lg_cur_size` cells, `num_entries_` is the
@@ -94,6 +101,31 @@ theorem life_slots_inv_partial (C : Cfg) (hC : C.OK) (ops : List Op) (hcov : Cov
       rcases hi.slots.ok i hlt with ⟨_, hr'⟩ | ⟨_, v, hv⟩
       · simp [hr']
       · simp [hv]
+
+/-- SLOTS = COUNTERS for the frequent-items map: the three blocks have `2^lg_cur_size` cells, slot `i` of `keys_` holds an
+    object exactly when `states_[i] > 0`, `values_` / `states_` never hold objects, and `num_active_` is the number of
+    active states. -/
+theorem life_slots_inv_fi_partial (C : Cfg) (hC : C.OK) (ops : List Op) (hcov : Covered ops) (w : World)
+    (hr : run C World.init ops = .ok w) (e : Entry) (he : e ∈ w.objs) (s : Fi.Sketch) (hs : e.obj = .fi s) :
+    (∃ k v st, s.map.keys = some k ∧ s.map.values = some v ∧ s.map.states = some st ∧
+      w.heap.count? k = some (2 ^ s.map.lgCur) ∧ w.heap.count? v = some (2 ^ s.map.lgCur) ∧
+      w.heap.count? st = some (2 ^ s.map.lgCur) ∧
+      (∀ i, i < 2 ^ s.map.lgCur → (stAt w.heap k i ≠ .raw ↔ 0 < wordAt w.heap st i)) ∧
+      (∀ i, stAt w.heap v i = .raw ∧ stAt w.heap st i = .raw) ∧
+      s.map.numActive = cnt (fun i => decide (0 < wordAt w.heap st i)) (2 ^ s.map.lgCur)) ∨
+    (s.map.keys = none ∧ s.map.values = none ∧ s.map.states = none ∧ s.map.numActive = 0) := by
+  have := run_safe (contracts C hC) ops (WorldInv.init (spec C)) hcov
+  rw [hr] at this
+  have hi := (this.inv e he).1
+  rw [hs] at hi
+  change Fi.Inv C.fi w.heap s.map at hi
+  rcases Fi.InvG.ptrs hi with ⟨k, v, st, hk, hv, hst, _, T, hc⟩ | ⟨hk, hv, hst, _, _, hc⟩
+  · refine Or.inl ⟨k, v, st, hk, hv, hst, T.ck, T.cv, T.cs, ?_, fun i => ⟨T.rawv i, T.raws i⟩, hc⟩
+    intro i hlt
+    rcases T.slot i hlt (by simp) with ⟨hz, hr'⟩ | ⟨hp, hnr, _⟩
+    · simp [hz, hr']
+    · simp [hp, hnr]
+  · exact Or.inr ⟨hk, hv, hst, hc⟩
 
 /-- OWNERSHIP: live objects own pairwise disjoint blocks, every block of the heap is owned by some live object, and
     every owned block exists.  (Copy: `life_copy_fresh_equal`; move: `life_move_transfers`.) -/
